@@ -10,7 +10,6 @@ import (
 	"encoding/binary"
 	"errors"
 	"fmt"
-	"os"
 	"strings"
 	"testing"
 	"time"
@@ -75,6 +74,9 @@ type w6Engine struct {
 	roles    []binlog.ChangeRoleInfo
 	dead     bool // set when the simulated process was killed: callbacks after that are ignored
 	onCommit func(off int64)
+	// applyDelay > 0 makes every Apply take that much (simulated) time: a slow engine, so that the
+	// reader's own commit timer fires in the middle of a replay
+	applyDelay time.Duration
 }
 
 func (e *w6Engine) isDead() bool { return e.dead }
@@ -82,6 +84,9 @@ func (e *w6Engine) isDead() bool { return e.dead }
 func (e *w6Engine) Apply(payload []byte) (int64, error) {
 	if e.isDead() {
 		return e.offset, errors.New("dead")
+	}
+	if e.applyDelay > 0 {
+		time.Sleep(e.applyDelay)
 	}
 	for {
 		if len(payload) < 8 {
@@ -795,6 +800,13 @@ func (w *w6World) verifyReplay(fs *gofs.InMemoryFS, what string, startOff int64,
 	opt.Fs = fs
 	opt.ReadAndExit = true
 	eng := &w6Engine{r: r, w: w, name: "replay-" + what, offset: startOff, oneByOne: w.c.Intn(2, "onebyone") == 1}
+	nested := strings.HasSuffix(what, "+midcommit")
+	if !nested && w.c.Intn(3, "slow_engine") == 1 {
+		// a slow engine: the reader's commit timer (500 ms) fires in the middle of the replay and
+		// hands the engine commit positions with metas of their own
+		eng.oneByOne = true
+		eng.applyDelay = time.Duration(150+w.c.Intn(400, "slow_engine_ms")) * time.Millisecond
+	}
 	bl, err := NewFsBinlog(&binlog.EmptyLogger{}, opt)
 	if err != nil {
 		panic(err)
@@ -812,7 +824,7 @@ func (w *w6World) verifyReplay(fs *gofs.InMemoryFS, what string, startOff int64,
 		done = true
 	}()
 	verifsim.Wait()
-	if !done {
+	for i := 0; !done && i < 1+int(eng.applyDelay/time.Millisecond); i++ {
 		time.Sleep(2 * time.Second)
 		verifsim.Wait()
 	}
@@ -828,6 +840,26 @@ func (w *w6World) verifyReplay(fs *gofs.InMemoryFS, what string, startOff int64,
 		return eng, runErr
 	}
 	w.checkApplied(eng, startOff, want, what, exact && runErr == nil)
+	if eng.applyDelay > 0 && runErr == nil && !r.Failed() {
+		// commits the reader issued in the middle of this replay are committed positions like any
+		// other: resuming from one with the meta it came with delivers exactly the rest
+		var mid []w6Commit
+		for _, cm := range eng.commits {
+			if cm.off > startOff && cm.off < eng.offset {
+				mid = append(mid, cm)
+			}
+		}
+		if len(mid) > 0 {
+			r.Probe("reader_mid_replay_commit")
+			cm := mid[w.c.Intn(len(mid), "mid_commit_idx")]
+			first := 0
+			for first < len(w.model) && w.model[first].off < startOff {
+				first++
+			}
+			r.Event("replay", "%s: reader committed %d mid-replay; resuming from it", what, cm.off)
+			w.verifyReplay(fs, what+"+midcommit", cm.off, cm.meta, first+len(eng.applied), true, false)
+		}
+	}
 	return eng, runErr
 }
 
@@ -1088,11 +1120,13 @@ func (w *w6World) bitflipCheck(files []gofs.SimImageFile, ref *w6Engine) {
 	// locate file and check whether a crc record lies after flipOff in that file, before the
 	// end of what the reference replay consumed
 	covered := false
+	var fileStart, fileEnd int64
 	for _, h := range hdrs {
 		st, _ := img.Stat(h.FileName)
 		if flipOff < h.Position || flipOff >= h.Position+st.Size() {
 			continue
 		}
+		fileStart, fileEnd = h.Position, h.Position+st.Size()
 		data, _ := img.ReadFile(h.FileName)
 		// walk service records located between model events of this file
 		for mi := vi; mi < len(ref.applied); mi++ {
@@ -1154,7 +1188,38 @@ func (w *w6World) bitflipCheck(files []gofs.SimImageFile, ref *w6Engine) {
 	} else {
 		r.Probe("bitflip_not_covered")
 	}
-	_ = os.ErrClosed
+	if r.Failed() {
+		return
+	}
+	// a snapshot meta is a checksum record too: resuming with the meta of a commit that lies after
+	// the flipped byte in the same chunk file re-reads the file's prefix and must notice
+	var after []w6Commit
+	for _, cm := range w.commitLog {
+		if cm.off > ev.end && cm.off > fileStart && cm.off < fileEnd && cm.off <= ref.offset {
+			after = append(after, cm)
+		}
+	}
+	if len(after) == 0 {
+		return
+	}
+	cm := after[c.Intn(len(after), "flip_resume_idx")]
+	eng2 := &w6Engine{r: r, w: w, name: "replay-flip-resume", offset: cm.off, oneByOne: true}
+	bl2, _ := NewFsBinlog(&binlog.EmptyLogger{}, opt)
+	var runErr2 error
+	done2 := false
+	go func() { runErr2 = bl2.Run(cm.off, cm.meta, nil, eng2); done2 = true }()
+	verifsim.Wait()
+	if !done2 {
+		time.Sleep(2 * time.Second)
+		verifsim.Wait()
+	}
+	r.Probe("bitflip_before_resume_meta")
+	r.Event("replay", "bitflip at %d, resume from commit %d with its meta -> err=%v applied=%d", flipOff, cm.off, errShort(runErr2), len(eng2.applied))
+	if runErr2 == nil {
+		r.Fail("C18", "corruption_undetected", "bitflip-resume", "byte at offset %d flipped; resuming from commit %d (same chunk file, with the commit's snapshot meta, whose crc covers the flipped byte) completed without error", flipOff, cm.off)
+	} else if !strings.Contains(runErr2.Error(), "crc") {
+		r.Fail("C18", "corruption_wrong_error", "bitflip-resume", "flipped byte at %d, resume from %d: replay failed with %q, not a checksum error", flipOff, cm.off, runErr2.Error())
+	}
 }
 
 func TestVerifW6(t *testing.T) {
